@@ -275,7 +275,7 @@ class Scheduler(object):
                 self.arm()
                 self.sems[target].release()
 
-    def run(self, body, wall_timeout=120, team=None):
+    def run(self, body, wall_timeout=900, team=None):
         """body(tid) runs the operations of thread tid.  team: optional
         Team of persistent threads (creating threads is expensive in this
         sandbox when done thousands of times)."""
